@@ -435,6 +435,22 @@ impl<'a> MCtx<'a> {
             v.sigs.clear();
             push("sigs=[]".into(), v);
         }
+        // an extra entry under the adversary's own key (genuine signature by it), claiming indices nobody else claims
+        {
+            let adv_sigma = self.adv.sign(&msgp);
+            let used = c.all_indexes();
+            let free: Vec<u64> = self.r.winning(&w.view, &msgp, &adv_sigma, w.total).into_iter().filter(|i| !used.contains(i)).collect();
+            let entry = CSig { sigma: adv_sigma, indexes: free, slot: n, vk: self.adv.vk.clone(), stake: w.total };
+            for (pn, extra_path) in [("unchanged", None), ("index-n-appended", Some(n)), ("last-index-repeated", c.path_indices.last().copied())] {
+                let mut v = c.clone();
+                v.sigs.push(entry.clone());
+                if pn != "unchanged" {
+                    let Some(x) = extra_path else { continue };
+                    v.path_indices.push(x);
+                }
+                push(format!("sigs+=adversary-entry(path={pn})"), v);
+            }
+        }
         out
     }
 
